@@ -23,6 +23,8 @@ pub enum Engine {
     Conc,
     /// Outage placed at every (sampled) node call of a concurrent scenario.
     Outage,
+    /// The CLN plugin in-process against scripted fake towers on a paused clock.
+    Client,
 }
 
 pub struct PropSpec {
@@ -43,6 +45,7 @@ pub const SPECS: &[PropSpec] = &[
     PropSpec { id: "C02", engine: Engine::Seq, profiles: &[(Profile::Breach, 50), (Profile::Chain, 35), (Profile::Expiry, 15)], level: "exploration", quick_secs: 60, quick_runs: 30_000, thorough_secs: 900, rule: RULE_SEQ },
     PropSpec { id: "C03", engine: Engine::Crash, profiles: &[(Profile::Breach, 50), (Profile::Chain, 20), (Profile::Expiry, 15), (Profile::Completion, 15)], level: "fault_enumeration", quick_secs: 75, quick_runs: 400, thorough_secs: 1200, rule: RULE_CRASH },
     PropSpec { id: "C04", engine: Engine::Seq, profiles: &[(Profile::Chain, 75), (Profile::Completion, 15), (Profile::Breach, 10)], level: "exploration", quick_secs: 75, quick_runs: 20_000, thorough_secs: 1200, rule: RULE_SEQ },
+    PropSpec { id: "C05", engine: Engine::Client, profiles: &[], level: "exploration", quick_secs: 60, quick_runs: 100_000, thorough_secs: 900, rule: RULE_CLIENT },
     PropSpec { id: "C06", engine: Engine::Seq, profiles: &[(Profile::Auth, 85), (Profile::Expiry, 15)], level: "exploration", quick_secs: 60, quick_runs: 30_000, thorough_secs: 900, rule: RULE_SEQ },
     PropSpec { id: "C07", engine: Engine::Seq, profiles: &[(Profile::Breach, 45), (Profile::Chain, 15), (Profile::Expiry, 15), (Profile::Auth, 15), (Profile::Completion, 10)], level: "exploration", quick_secs: 60, quick_runs: 30_000, thorough_secs: 900, rule: RULE_SEQ },
     PropSpec { id: "C08", engine: Engine::Seq, profiles: &[(Profile::Breach, 60), (Profile::Expiry, 20), (Profile::Chain, 20)], level: "exploration", quick_secs: 60, quick_runs: 30_000, thorough_secs: 900, rule: RULE_SEQ },
@@ -50,6 +53,9 @@ pub const SPECS: &[PropSpec] = &[
     PropSpec { id: "C10", engine: Engine::Conc, profiles: &[], level: "exploration", quick_secs: 75, quick_runs: 100_000, thorough_secs: 1200, rule: RULE_CONC },
     PropSpec { id: "C11", engine: Engine::Seq, profiles: &[(Profile::Resubmit, 50), (Profile::Breach, 20), (Profile::Chain, 20), (Profile::Expiry, 10)], level: "exploration", quick_secs: 60, quick_runs: 30_000, thorough_secs: 900, rule: RULE_SEQ },
     PropSpec { id: "C12", engine: Engine::Outage, profiles: &[], level: "fault_enumeration", quick_secs: 75, quick_runs: 100_000, thorough_secs: 1200, rule: RULE_OUTAGE },
+    PropSpec { id: "C13", engine: Engine::Client, profiles: &[], level: "exploration", quick_secs: 60, quick_runs: 100_000, thorough_secs: 900, rule: RULE_CLIENT },
+    PropSpec { id: "C14", engine: Engine::Client, profiles: &[], level: "exploration", quick_secs: 60, quick_runs: 100_000, thorough_secs: 900, rule: RULE_CLIENT },
+    PropSpec { id: "C18", engine: Engine::Client, profiles: &[], level: "exploration", quick_secs: 60, quick_runs: 100_000, thorough_secs: 900, rule: RULE_CLIENT },
     PropSpec { id: "C19", engine: Engine::Seq, profiles: &[(Profile::Chain, 70), (Profile::Breach, 30)], level: "exploration", quick_secs: 60, quick_runs: 30_000, thorough_secs: 900, rule: RULE_SEQ },
 ];
 
@@ -58,6 +64,8 @@ const RULE_CRASH: &str = "histories as for C01 (shorter, with block-download fai
 const RULE_CONC: &str = "scenarios = seeded prepared state (sequential prefix) + 2-3 simulated threads (chain thread polling prepared blocks, API threads) from 8 templates (appointment vs block with its dispute, duplicate submission, registration vs submission, replacement vs trigger, completion/refund vs request, purge vs request, reorg vs request, free mix); each scenario is first run in every sequential order of its operations (reference outcomes from the real code), then under seeded random and PCT(d=2,3) schedules at lock / condvar / node-RPC granularity; evaluations = executions; distinct = distinct (scenario, schedule trace); non-trivial = schedule with at least one preemption";
 
 const RULE_OUTAGE: &str = "scenarios = appointments / trackers in place + blocks waiting to be polled; chain thread polls 3-6 times, an API thread submits / reads, an environment thread brings the node back after it went down; a dry run numbers the RPCs and block-source calls of the concurrent phase, then the outage (transport error on every node call) is started at each of them (quick: 7 sampled per scenario; thorough: every one), on the request path and on the block path, each under 2-3 seeded schedules; evaluations = executions; distinct = distinct (scenario, outage point, schedule trace)";
+
+const RULE_CLIENT: &str = "client histories are generated from splitmix(VERIF_SEED, property, index): 1-3 fake towers, registrations, commitment revocations, per-request scripted tower replies (accept / connection refused / API errors / non-JSON / wrong shape / other-key signature / malformed signature / non-extending receipt), outage windows, latency, virtual time passing, duplicate notifications, kills and restarts, abandon / retry / info commands; executed against the real plugin on a paused tokio clock; non-trivial = at least one non-accepting reply was served or the client was killed; distinct = distinct hash of (config, operation list)";
 
 pub fn spec(id: &str) -> Option<&'static PropSpec> {
     SPECS.iter().find(|s| s.id == id)
@@ -205,6 +213,8 @@ pub struct WorkerOut {
     pub lock_order_cycles_seen: u64,
     #[serde(default)]
     pub scenarios: u64,
+    #[serde(default)]
+    pub virtual_secs: u64,
 }
 
 fn merge_stats(out: &mut WorkerOut, st: &RunStats) {
@@ -246,6 +256,9 @@ pub fn cmd_worker(args: &[String]) -> i32 {
     let mut out = WorkerOut::default();
     if spec.engine == Engine::Conc || spec.engine == Engine::Outage || args.get(9).map(|s| s == "conc").unwrap_or(false) {
         return conc_worker(spec, root, start, step, max_index, deadline, outfile, want_digests, thorough, &known);
+    }
+    if spec.engine == Engine::Client {
+        return client_worker(spec, root, start, step, max_index, deadline, outfile, want_digests, &known);
     }
     let mut nontrivial: BTreeSet<u64> = BTreeSet::new();
     let mut states: BTreeSet<u64> = BTreeSet::new();
@@ -380,6 +393,104 @@ fn fnv64(data: &[u8]) -> u64 {
         x = x.wrapping_mul(0x100000001b3);
     }
     x
+}
+
+#[allow(clippy::too_many_arguments)]
+fn client_worker(
+    spec: &PropSpec,
+    root: u64,
+    start: u64,
+    step: u64,
+    max_index: u64,
+    deadline: u64,
+    outfile: &str,
+    want_digests: bool,
+    known: &[KnownFinding],
+) -> i32 {
+    use crate::client_check::{client_signature, gen_client_history, minimise_client, run_client_in_thread, ClientReplay};
+    let mut out = WorkerOut::default();
+    let mut nontrivial: BTreeSet<u64> = BTreeSet::new();
+    let mut handled: BTreeSet<String> = BTreeSet::new();
+    let mut i = start;
+    while i < max_index && now_ms() < deadline {
+        let seed = derive(root, &format!("{}-client", spec.id), i);
+        let h = gen_client_history(spec.id, seed);
+        let res = run_client_in_thread(&h);
+        out.runs += 1;
+        out.ops += res.stats.ops;
+        out.rpcs += res.stats.requests;
+        out.virtual_secs += res.stats.virtual_secs;
+        out.crashes += res.stats.kills;
+        out.crash_points += res.stats.crash_points;
+        for (k, v) in res.stats.probes.iter() {
+            *out.probes.entry(k.clone()).or_insert(0) += v;
+        }
+        for (k, v) in res.stats.replies_injected.iter() {
+            *out.faults_fired.entry(format!("reply_{k}")).or_insert(0) += v;
+        }
+        if res.stats.nontrivial {
+            nontrivial.insert(fnv64(serde_json::to_string(&(&h.cfg, &h.ops, &h.crash_at)).unwrap().as_bytes()));
+        }
+        if want_digests {
+            out.digests.insert(i, res.stats.digest);
+        }
+        if out.samples.len() < 2 && start == 0 && res.stats.nontrivial {
+            out.samples.push(json!({"index": i, "seed": h.seed, "cfg": h.cfg, "ops": h.ops.iter().take(40).collect::<Vec<_>>()}));
+        }
+        let mut first_done = false;
+        for f in res.found.iter() {
+            if f.property != spec.id {
+                *out.other_property.entry(format!("{}:{}", f.property, f.clause)).or_insert(0) += 1;
+                continue;
+            }
+            if first_done {
+                continue;
+            }
+            first_done = true;
+            let sig = client_signature(spec.id, f);
+            if is_known_open(known, spec.id, &sig).is_some() {
+                *out.known_seen.entry(sig.clone()).or_insert(0) += 1;
+                continue;
+            }
+            if handled.contains(&sig) || handled.len() >= 4 {
+                continue;
+            }
+            handled.insert(sig.clone());
+            let min = minimise_client(&h, spec.id, &sig, 120);
+            let dir = verif_dir().join("replays");
+            let _ = std::fs::create_dir_all(&dir);
+            let path = dir.join(format!("{}-{}-{}.json", spec.id, seed, sig8(&sig)));
+            let rf = ClientReplay {
+                property: spec.id.to_string(),
+                signature: sig.clone(),
+                detail: f.detail.clone(),
+                engine: "client".into(),
+                client_history: min,
+            };
+            std::fs::write(&path, serde_json::to_string_pretty(&rf).unwrap()).unwrap();
+            let st = Command::new(std::env::current_exe().unwrap())
+                .arg("--replay")
+                .arg(&path)
+                .stdout(Stdio::piped())
+                .stderr(Stdio::piped())
+                .output()
+                .unwrap();
+            if st.status.code() != Some(1) {
+                eprintln!(
+                    "HARNESS ERROR: replay of {} in a fresh process did not reproduce (exit {:?})\n{}",
+                    path.display(),
+                    st.status.code(),
+                    String::from_utf8_lossy(&st.stdout)
+                );
+                std::process::exit(2);
+            }
+            out.violations.push((sig, path.to_string_lossy().to_string(), f.detail.clone()));
+        }
+        i += step;
+    }
+    out.nontrivial_hashes = nontrivial.into_iter().collect();
+    std::fs::write(outfile, serde_json::to_vec(&out).unwrap()).unwrap();
+    0
 }
 
 #[allow(clippy::too_many_arguments)]
@@ -559,6 +670,7 @@ pub fn run_batch(id: &str, root: u64, max_runs: u64, secs: u64, jobs: usize, dig
         merged.preemptions += w.preemptions;
         merged.lock_order_cycles_seen += w.lock_order_cycles_seen;
         merged.scenarios += w.scenarios;
+        merged.virtual_secs += w.virtual_secs;
         for (k, v) in w.probes {
             *merged.probes.entry(k).or_insert(0) += v;
         }
@@ -719,6 +831,7 @@ pub fn cmd_check(args: &[String]) -> i32 {
             "crash_points_numbered_in_dry_runs": m.crash_points_numbered,
             "histories_cut_short_by_the_time_budget": m.incomplete_histories,
             "concurrent_scenarios": m.scenarios,
+            "simulated_client_time_seconds": m.virtual_secs,
             "scheduler_steps": m.sched_steps,
             "preemptions": m.preemptions,
             "interleavings_distinct": if spec.engine == Engine::Conc || spec.engine == Engine::Outage { m.nontrivial_hashes.len() as u64 } else { m.scenarios },
@@ -811,6 +924,32 @@ pub fn cmd_selftest(args: &[String]) -> i32 {
 pub fn cmd_replay(args: &[String]) -> i32 {
     let Some(path) = args.first() else { return 2 };
     if let Ok(text) = std::fs::read_to_string(path) {
+        if let Ok(cr) = serde_json::from_str::<crate::client_check::ClientReplay>(&text) {
+            let res = crate::client_check::run_client_in_thread(&cr.client_history);
+            if std::env::var("SIM_DEBUG").is_ok() {
+                for f in res.found.iter() {
+                    println!("  all: {} {} at op #{} ({}): {}", f.property, f.clause, f.op_index, f.op_kind, f.detail);
+                }
+                println!("  probes: {:?} replies: {:?}", res.stats.probes, res.stats.replies_injected);
+            }
+            let hit = res
+                .found
+                .iter()
+                .find(|f| f.property == cr.property)
+                .filter(|f| crate::client_check::client_signature(&cr.property, f) == cr.signature);
+            return match hit {
+                Some(f) => {
+                    println!("VIOLATION property={} replay={}", cr.property, path);
+                    println!("  signature: {}", cr.signature);
+                    println!("  at op #{} ({}): {}", f.op_index, f.op_kind, f.detail);
+                    1
+                }
+                None => {
+                    println!("replay {path}: violation with signature '{}' NOT reproduced", cr.signature);
+                    0
+                }
+            };
+        }
         if let Ok(cr) = serde_json::from_str::<crate::conc_check::ConcReplay>(&text) {
             let r = if cr.engine == "outage" {
                 crate::conc_check::recheck_outage(&cr.scenario, &cr.strategy, &cr.signature)
@@ -881,6 +1020,18 @@ pub fn cmd_gen(args: &[String]) -> i32 {
 pub fn cmd_one(args: &[String]) -> i32 {
     let spec = spec(&args[0]).unwrap();
     let idx: u64 = args[1].parse().unwrap();
+    if spec.engine == Engine::Client {
+        let seed = derive(root_seed(), &format!("{}-client", spec.id), idx);
+        let h = crate::client_check::gen_client_history(spec.id, seed);
+        println!("{}", serde_json::to_string(&h).unwrap());
+        let t0 = Instant::now();
+        let res = crate::client_check::run_client_in_thread(&h);
+        println!("time={:?} requests={} virtual_secs={} kills={} digest={:x} probes={:?}", t0.elapsed(), res.stats.requests, res.stats.virtual_secs, res.stats.kills, res.stats.digest, res.stats.probes);
+        for f in res.found.iter() {
+            println!("FOUND {} {} at op #{} ({}): {}", f.property, f.clause, f.op_index, f.op_kind, f.detail);
+        }
+        return 0;
+    }
     if spec.engine == Engine::Outage {
         let seed = derive(root_seed(), &format!("{}-conc", spec.id), idx);
         let sc = crate::conc_check::gen_outage_scenario(spec.id, seed);
